@@ -138,10 +138,21 @@ func (s *Server) serve(ctx context.Context, listener net.Listener, handler Modbu
 	l := onceCloseListener{Listener: listener}
 	defer l.Close()
 
+	// Accept blocks until new connection arrives. Closing the listener is the only way to unblock it when context is cancelled.
+	serveDone := make(chan struct{})
+	defer close(serveDone)
+	go func() {
+		select {
+		case <-ctx.Done():
+			_ = l.Close()
+		case <-serveDone:
+		}
+	}()
+
 	for {
 		netConn, err := l.Accept()
 		if err != nil {
-			if s.isShutdown.Load() {
+			if s.isShutdown.Load() || ctx.Err() != nil {
 				return ErrServerClosed
 			}
 			return err
